@@ -327,6 +327,12 @@ func (rn *Runner) deliver(peer *StubPeer, variant string, sess []Msg, i int) boo
 			rn.broken = true // calibration: nobody drains the consensus queue (capacity 1000) before the switch to consensus
 		}
 	}
+	// a consensus-state mutex leaked by Receive would block the loop: probe before waiting for it
+	if rname == "consensus" && !tryLock(e.V.CS.VerifTryLock) {
+		rn.broken = true
+		rn.c.Violation("mutex-held:"+rname+":"+m.Kind+":ConsensusState.mtx", "ConsensusState.mtx is still held after Receive returned (the consensus loop and every later Receive block for ever)", wit())
+		return false
+	}
 	// queued effects: drive the consensus loop to quiescence
 	if e.Cons.IsRunning() && !e.Cons.WaitSync() {
 		if !e.V.Quiesce() {
@@ -433,7 +439,7 @@ func skipToPanic(stack string) string {
 // tryLock repeats a TryLock probe: readers (gossip goroutines, event loops) hold the
 // mutexes for microseconds at a time, a leaked lock is held for ever.
 func tryLock(f func() bool) bool {
-	for i := 0; i < 20000; i++ {
+	for i := 0; i < 60000; i++ {
 		if f() {
 			return true
 		}
